@@ -289,7 +289,140 @@ def emit_weights():
     return 'Weights.lean', '\n'.join(lines) + '\n', {'weights': tab}
 
 
-EMITTERS = []
+def emit_codon(_repo):
+    """Standard genetic code as Bio.Seq.translate uses it (table 1)."""
+    try:
+        from Bio.Data import CodonTable
+    except Exception as e:   # noqa
+        raise TranslationError(f'cannot import Bio.Data.CodonTable: {e}') from e
+    t = CodonTable.unambiguous_dna_by_id[1]
+    ents = []
+    tab = {}
+    for a in 'ACGT':
+        for b in 'ACGT':
+            for c in 'ACGT':
+                cod = a + b + c
+                aa_ = '*' if cod in t.stop_codons else t.forward_table[cod]
+                tab[cod] = aa_
+                ents.append(f"  (('{a}', '{b}', '{c}'), '{aa_}')")
+    lines = [
+        '-- GENERATED by translator/gen_tables.py from Bio.Data.CodonTable (standard table, id 1)',
+        'namespace MoPepGen.Generated',
+        '',
+        '/-- codon ↦ amino acid, `*` for stop -/',
+        'def codonTable : List ((Char × Char × Char) × Char) := [',
+        ',\n'.join(ents),
+        ']',
+        '',
+        'end MoPepGen.Generated',
+    ]
+    return 'Codon.lean', '\n'.join(lines) + '\n', {'codons': tab}
+
+
+def lean_chars(s):
+    """a Python str as an explicit Lean `List Char` literal"""
+    def ch(c):
+        if c == "'":
+            return r"'\''"
+        if c == '\\':
+            return r"'\\'"
+        if not (32 <= ord(c) < 127):
+            raise TranslationError(f'non-printable character in constant {s!r}')
+        return f"'{c}'"
+    return '[' + ', '.join(ch(c) for c in s) + ']'
+
+
+def _find_func(tree, name):
+    for node in ast.walk(tree):
+        if isinstance(node, ast.FunctionDef) and node.name == name:
+            return node
+    raise TranslationError(f'function {name} not found')
+
+
+def emit_constants(repo):
+    """moPepGen/constant.py lists used by the GVF writer/reader, and the attribute key
+    under which the circRNA writer emits / the circRNA reader looks up the genomic
+    position (C13)."""
+    assigns, _ = module_assignments(os.path.join(repo, 'moPepGen', 'constant.py'))
+    out = {}
+    for name in ('ATTRS_POSITION', 'SINGLE_NUCLEOTIDE_SUBSTITUTION'):
+        if name not in assigns:
+            raise TranslationError(f'constant.{name} not found')
+        val = literal(assigns[name])
+        if not (isinstance(val, list) and all(isinstance(x, str) for x in val)):
+            raise TranslationError(f'constant.{name} is not a list of str')
+        out[name] = val
+    # reader: `genomic_location = attrs.get('<KEY>', '')` in circ/io.py:line_to_circ_model
+    with open(os.path.join(repo, 'moPepGen', 'circ', 'io.py'), encoding='utf-8') as fh:
+        tree = ast.parse(fh.read())
+    fn = _find_func(tree, 'line_to_circ_model')
+    rkeys = []
+    for node in ast.walk(fn):
+        if isinstance(node, ast.Assign) and len(node.targets) == 1 \
+                and isinstance(node.targets[0], ast.Name) \
+                and node.targets[0].id == 'genomic_location':
+            c = node.value
+            ok = (isinstance(c, ast.Call) and isinstance(c.func, ast.Attribute)
+                  and c.func.attr == 'get' and isinstance(c.func.value, ast.Name)
+                  and c.func.value.id == 'attrs' and len(c.args) == 2
+                  and all(isinstance(a, ast.Constant) and isinstance(a.value, str)
+                          for a in c.args) and c.args[1].value == '')
+            if not ok:
+                raise TranslationError(
+                    'circ/io.py: genomic_location is not `attrs.get(<str>, \'\')`: '
+                    + ast.dump(c)[:200])
+            rkeys.append(c.args[0].value)
+    if len(rkeys) != 1:
+        raise TranslationError(f'circ/io.py: expected one genomic_location lookup, got {rkeys}')
+    # writer: f'...;<KEY>={self.genomic_position}' in CircRNA.to_string
+    with open(os.path.join(repo, 'moPepGen', 'circ', 'CircRNA.py'), encoding='utf-8') as fh:
+        tree = ast.parse(fh.read())
+    fn = _find_func(tree, 'to_string')
+    wkeys = []
+    for node in ast.walk(fn):
+        if isinstance(node, ast.JoinedStr):
+            vals = node.values
+            for i, v in enumerate(vals):
+                if isinstance(v, ast.FormattedValue) and isinstance(v.value, ast.Attribute) \
+                        and v.value.attr == 'genomic_position':
+                    if i == 0 or not isinstance(vals[i - 1], ast.Constant):
+                        raise TranslationError('CircRNA.to_string: no literal before genomic_position')
+                    txt = vals[i - 1].value
+                    if not txt.endswith('='):
+                        raise TranslationError('CircRNA.to_string: genomic_position not written as KEY=')
+                    wkeys.append(txt[:-1].split(';')[-1])
+    if len(wkeys) != 1:
+        raise TranslationError(f'CircRNA.to_string: expected one genomic_position field, got {wkeys}')
+    out['CIRC_READER_KEY'] = rkeys[0]
+    out['CIRC_WRITER_KEY'] = wkeys[0]
+    lines = [
+        '-- GENERATED by translator/gen_tables.py from moPepGen/constant.py,',
+        '-- moPepGen/circ/io.py (line_to_circ_model) and moPepGen/circ/CircRNA.py (to_string)',
+        '-- Do not edit. Regenerated on every check run.',
+        'namespace MoPepGen.Generated',
+        '',
+        '/-- constant.ATTRS_POSITION -/',
+        'def attrsPosition : List (List Char) := [',
+        ',\n'.join('  ' + lean_chars(x) for x in out['ATTRS_POSITION']),
+        ']',
+        '',
+        '/-- constant.SINGLE_NUCLEOTIDE_SUBSTITUTION -/',
+        'def singleNucleotideSubstitution : List (List Char) := [',
+        ',\n'.join('  ' + lean_chars(x) for x in out['SINGLE_NUCLEOTIDE_SUBSTITUTION']),
+        ']',
+        '',
+        '/-- key looked up by circ.io.line_to_circ_model for the genomic position -/',
+        f'def circReaderKey : List Char := {lean_chars(out["CIRC_READER_KEY"])}',
+        '',
+        '/-- key under which CircRNAModel.to_string writes the genomic position -/',
+        f'def circWriterKey : List Char := {lean_chars(out["CIRC_WRITER_KEY"])}',
+        '',
+        'end MoPepGen.Generated',
+    ]
+    return 'Constants.lean', '\n'.join(lines) + '\n', out
+
+
+EMITTERS = [emit_codon, emit_constants]
 
 
 def main():
